@@ -282,7 +282,9 @@ theorem reduces_head {p : Prec} {ps : List Prec} {l : LA} (h : Reduces C P F (p 
 theorem reduces_op (G : GlobalFacts T P F C) {ps : List Prec} {o : Nat} (ho : IsOp P F o)
     (h : allReduce P ps o = true) : Reduces C P F ps (.tok (C.opTerm o)) := by
   intro o' ho' he
-  rw [G.inj o' ho' o ho he]
+  have hl := G.lvl o' ho' o ho he
+  unfold allReduce at h ⊢
+  rw [hl]
   exact h
 
 theorem reduces_closer (G : GlobalFacts T P F C) {ent : Entry} (hd : ent.cl &&& C.opsMask = 0)
